@@ -1260,6 +1260,7 @@ where
         // The generated code mentions these types by name.
         let storaget = type_name::<StorageT>();
         let lexertypest = type_name::<LexerTypesT>();
+        let lexemet = type_name::<LexerTypesT::LexemeT>();
         let rule_map = grm
             .iter_tidxs()
             .map(|tidx| {
@@ -1283,6 +1284,7 @@ where
             RUST_EDITION = #rust_edition
             STORAGE_T = #storaget
             LEXER_TYPES_T = #lexertypest
+            LEXEME_T = #lexemet
             RULE_IDS_MAP = [#(#rule_map,)*]
             VISIBILITY = #visibility
 
